@@ -610,6 +610,87 @@ def check_sym(cs):
     return True, None, None, True
 
 
+# ---------------------------------------------------------------- one device in several sessions
+# a hub with three leaves: the session-level data of one pair must not depend on which other pairs the same device has
+# (each end runs a different sequence of handler calls)
+def run_many(who, kind, which):
+    from annet.mesh import MeshRulesRegistry, MeshExecutor
+    hub = FDevice("rr1.dc", [FInterface("lo0")])
+    leaves = [FDevice("leaf%d.dc" % i, [FInterface("lo0")]) for i in (1, 2, 3)]
+    if kind == "direct":
+        for i, lf in enumerate(leaves):
+            hub.interfaces.append(FInterface("et%d" % i, lf.fqdn, "up0"))
+            lf.interfaces.append(FInterface("up0", hub.fqdn, "et%d" % i))
+    st = FStorage()
+    st.devices = [hub] + leaves
+    reg = MeshRulesRegistry()
+
+    def h(leaf, rr, session):
+        n = leaf.match.n
+        leaf.addr = "10.0.%d.1/31" % n
+        rr.addr = "10.0.%d.0/31" % n
+        leaf.asnum = 65000 + n
+        rr.asnum = 64512
+        session.families = {"ipv4_unicast"}
+        if kind == "indirect":
+            leaf.ifname = rr.ifname = "lo0"
+        if n == which:
+            # only ONE of the pairs sets these session fields
+            session.bfd = True
+            session.add_path = True
+            session.families = {"ipv4_unicast", "ipv6_unicast"}
+    if kind == "direct":
+        reg.direct("leaf{n}.dc", "rr{k}.dc")(h)
+    else:
+        reg.indirect("leaf{n}.dc", "rr{k}.dc")(h)
+    dev = {d.fqdn: d for d in st.devices}[who]
+    res = MeshExecutor(reg, st).execute_for(dev)
+    out = {}
+    for p in res.peers:
+        o = p.options
+        out[p.hostname] = {"addr": p.addr, "families": sorted(p.families), "bfd": o.bfd if o else None,
+                           "add_path": o.add_path if o else None, "remote_as": int(p.remote_as)}
+    return out
+
+
+def check_many(cs):
+    kind, which = cs["kind"], cs["which"]
+    try:
+        hub = run_many("rr1.dc", kind, which)
+        ends = {i: run_many("leaf%d.dc" % i, kind, which) for i in (1, 2, 3)}
+    except Exception as e:  # noqa
+        return False, {"error": repr(e)}, "many:exception:%s" % type(e).__name__, True
+    for i in (1, 2, 3):
+        a = hub.get("leaf%d.dc" % i)
+        b = ends[i].get("rr1.dc")
+        if a is None or b is None:
+            return False, {"hub": hub, "leaf": ends[i], "pair": i}, "many:peer-missing", True
+        for f in ("families", "bfd", "add_path"):
+            if a[f] != b[f]:
+                return False, {"pair": "rr1-leaf%d" % i, "field": f, "on_hub": a, "on_leaf": b, "set_only_for_leaf": which}, \
+                    "many:session-options-differ", True
+        want = (i == which)
+        if bool(a["bfd"]) != want or bool(b["bfd"]) != want:
+            return False, {"pair": "rr1-leaf%d" % i, "on_hub": a, "on_leaf": b, "set_only_for_leaf": which}, \
+                "many:session-data-of-another-pair", True
+    return True, None, None, True
+
+
+MANY = [{"kind": k, "which": w} for k in ("direct", "indirect") for w in (1, 2, 3)]
+
+
+def h_many(case: int) -> bool:
+    """
+    pre: 0 <= case < len(MANY)
+    post: _ == True
+    """
+    c = pick(case, len(MANY))
+    with NoTracing():
+        ok, detail, kind, nt = check_many(MANY[c])
+        rt.record({"many": c}, ok, [c], detail=detail, fingerprint="C15:exec:%s" % kind)
+    return ok
+
+
 SYM = [{"filt": f, "indirect": i, "svi": s_} for f in (False, True) for (i, s_) in ((False, False), (False, True), (True, False))]
 
 
@@ -820,6 +901,7 @@ def plan(tier):
         dict(name="template", func="z_templates", kind="py", shards=1, timeout=150 if q else 900),
         dict(name="exec", func="h_exec", shards=16, timeout=280 if q else 1200),
         dict(name="exec.symmetric", func="h_sym", shards=1, timeout=100),
+        dict(name="exec.hub", func="h_many", shards=1, timeout=100),
         dict(name="twin", func="h_twin", shards=1, timeout=100, expect="refuted"),
     ]
 
@@ -845,6 +927,9 @@ def replay(obligation, case):
         a = PeerNameTemplate(t).match(host) is not None
         b = re.fullmatch(ref_template_regex(t), host) is not None
         return {"ok": a == b, "detail": {"template": t, "host": host, "annet": a, "reference": b}, "fingerprint": "C15:template:%s" % t}
+    if "many" in case:
+        ok, detail, kind, _ = check_many(MANY[case["many"]])
+        return {"ok": ok, "detail": detail, "fingerprint": "C15:exec:%s" % kind}
     if "sym" in case:
         ok, detail, kind, _ = check_sym(SYM[case["sym"]])
         return {"ok": ok, "detail": detail, "fingerprint": "C15:exec:%s" % kind}
